@@ -31,7 +31,6 @@ CONSTANTS
   MaxRequests = 0
   Enforce = %s
   Deviations = {}
-INVARIANT NoBadT
 POSTCONDITION Accepted
 CHECK_DEADLOCK FALSE
 """
